@@ -20,7 +20,9 @@ RULE = ("(A) generated trees searched as uid 65534 (setpriv): first with everyth
         "a good root. (B) closed stdout: a pipe shrunk to 4 KiB whose reader closes after k bytes (k = 0.., every "
         "offset in the thorough tier), 6 formats x streamed/ordered/aggregated: no panic, status 0 or 1, bytes "
         "received are a prefix of the full output; (C) deterministic write faults: stdout on a FIFO under "
-        "`strace -P fifo -e inject=write:error=EPIPE:when=k+` for every write index k. distinct = (tree, faults, "
+        "`strace -P fifo -e inject=write:error=EPIPE:when=k+` for every write index k; (D) failing reader: with `archives`, "
+        "archives that are unreadable for the uid, empty, truncated or no zip at all, named so that siblings follow on "
+        "either side: the ordinary rows are exactly those of the run without `archives` (streamed, ordered, counted). distinct = (tree, faults, "
         "argv) or (format, path, offset); nontrivial = at least one fault is met by the walk / the pipe closes "
         "before the last byte")
 
@@ -316,6 +318,63 @@ def part_c(ctx, scratch, root, quick):
     ctx.count("injected_runs", ran)
 
 
+def part_d(ctx, scratch, quick):
+    """a failing *reader*: with `archives`, an archive that cannot be opened (mode 000 for uid 65534), is empty,
+    truncated or no zip at all adds no member rows and costs no other row, wherever it sits in its directory"""
+    for t in range(8 if quick else 120):
+        r = ctx.rng.fork()
+        ents = healthy_tree(r, r.choice([6, 12, 20]))
+        dirs = [""] + [e["path"] for e in ents if e["kind"] == "d"]
+        bad = []
+        for i in range(r.range(1, 3)):
+            d = r.choice(dirs)
+            # names that sort before and after their siblings: `readdir` order is arbitrary, entries follow on either side
+            nm = (d + "/" if d else "") + r.choice(["000-bad%d", "mmm-bad%d", "zzz-bad%d"]) % i + r.choice([".zip", ".jar", ".ZIP"])
+            how = r.choice(["unreadable", "empty", "garbage", "truncated"])
+            if how == "unreadable":
+                ents.append({"path": nm, "kind": "z", "members": fstree.gen_zip_members(r, 2), "mode": 0o000, "mtime": 1700000000})
+            else:
+                blob = {"empty": b"", "garbage": b"this is no archive", "truncated": b"PK\x03\x04" + b"\0" * 26}[how]
+                ents.append({"path": nm, "kind": "raw", "content": blob, "mtime": 1700000000})
+            bad.append((nm, how))
+        d = r.choice(dirs)
+        ents.append({"path": (d + "/" if d else "") + "good.zip", "kind": "z", "members": fstree.gen_zip_members(r, 3), "mtime": 1700000000})
+        root = os.path.join(scratch, "d%d" % t)
+        os.makedirs(root)
+        os.chmod(root, 0o755)
+        snap = corr.Snap(scratch, ents, root=root, as_nobody=True)
+        for shape in range(3):
+            trav = r.choice(["", " bfs", " dfs"])
+            tail = ["", " order by path", ""][shape]
+            sel = ["path", "path", "count(*)"][shape]
+            qa = "select %s from . archives%s%s into list" % (sel, trav, tail)
+            qp = "select %s from .%s%s into list" % (sel, trav, tail)
+            ctx.case((t, "archives", qa))
+            ctx.distinct.add((t, qa, "nt"))
+            ctx.hist("bad_archive", "+".join(sorted(set(h for _, h in bad))))
+            case = {"argv": [qa], "bad_archives": ["%s (%s)" % b for b in bad], "tree": [n["rel"] for n in snap.nodes][:50], "as": "uid 65534"}
+            a = common.run_cli([qa], cwd=root, scratch=scratch, as_nobody=True)
+            pl = common.run_cli([qp], cwd=root, scratch=scratch, as_nobody=True)
+            if common.panicked(a) or a["timed_out"] or a["status"] not in (0, 1):
+                ctx.oracle_fail("an archive that cannot be read: crash, hang or bad status", case,
+                                detail={"status": a["status"], "err": a["err"][-300:].decode("utf-8", "replace")})
+                continue
+            if shape == 2:
+                na, npl = int(a["out"].split(b"\0")[0] or 0), int(pl["out"].split(b"\0")[0] or 0)
+                if na < npl:
+                    ctx.oracle_fail("an archive that cannot be read costs other entries their place in the aggregate", case,
+                                    detail={"count_with_archives": na, "count_without": npl})
+                continue
+            arows = [x for x in a["out"].split(b"\0")[:-1] if not x.startswith(b"[")]
+            prows = pl["out"].split(b"\0")[:-1]
+            if arows != prows:
+                lost = [x.decode("utf-8", "replace") for x in prows if x not in arows][:5]
+                ctx.oracle_fail("an archive that cannot be read costs other entries their rows", case,
+                                detail={"rows_with_archives": len(arows), "rows_without": len(prows), "lost": lost, "status": a["status"],
+                                        "stderr": a["err"][:300].decode("utf-8", "replace")})
+        common.rm_tree(root)
+
+
 def run(ctx):
     quick = ctx.tier == "quick"
     scratch = common.new_scratch()
@@ -323,6 +382,7 @@ def run(ctx):
     try:
         # corpus: the witness of D41 (panic at the footer) must stay fixed
         part_a(ctx, scratch, quick)
+        part_d(ctx, scratch, quick)
         root = part_b(ctx, scratch, quick)
         part_c(ctx, scratch, root, quick)
     finally:
